@@ -95,7 +95,7 @@ class C18Sim(calsim.CalSim):
             # a restore legitimately goes back to the table of the checkpoint (classes added after it are gone again);
             # what must hold is that the restored table maps every restored label to its producer (checked in after())
             self.ref_table = {}
-        if op[0] in ("calibrate", "set_samplers", "set_scheduler", "restore"):
+        if op[0] in ("calibrate", "calibrate_fault", "set_samplers", "set_scheduler", "restore"):
             self.after(when)
         if op[0] == "calibrate" and self.folder is not None and r["exc"] is None:
             self.check_folder(self.folder, when)
@@ -108,7 +108,7 @@ class C18(Check):
     pid = "C18"
     level = "exploration"
     engine = "calsim"
-    rule = ("one evaluation = one op history over {calibrate(n), set_samplers(list), set_scheduler(round-robin or RL), create_checkpoint, "
+    rule = ("one evaluation = one op history over {calibrate(n), set_samplers(list), set_scheduler(round-robin or RL), calibrate with a failing batch, create_checkpoint, "
             "restore+continue} on a real Calibrator with a folder, line-ups where classes repeat and come and go; the sampler seam "
             "records the class that produced every row; after every op the live table is compared with the reference table, and every "
             "checkpoint written is restored and also read by plot_results._get_samplers_names; non-trivial = the line-up was replaced "
@@ -138,8 +138,12 @@ class C18(Check):
                 ops.append(["calibrate", rng.randint(1, 3)])
             elif u < 0.7:
                 ops.append(["checkpoint", rng.choice("AB")])
-            elif u < 0.85:
+            elif u < 0.82:
                 ops.append(["restore"])
+                ops.append(["calibrate", rng.randint(1, 2)])
+            elif u < 0.92:
+                # a batch fails (the model raises) after its sampler was chosen; the caller catches it and carries on
+                ops.append(["calibrate_fault", rng.randint(1, 3), rng.randint(0, 4)])
                 ops.append(["calibrate", rng.randint(1, 2)])
             else:
                 ops.append(["calibrate", rng.randint(1, 2)])
